@@ -49,10 +49,11 @@ CLAUSE = {
 }
 
 
-def cfg(foreign, maxcalls, maxts, nclear, variant="faithful", atomic=False, check=True, refine=True):
+def cfg(foreign, maxcalls, maxts, nclear, variant="faithful", atomic=False, check=True, refine=True, shapes=()):
     s = "SPECIFICATION Spec\nCONSTANTS Foreign = {%s}\n  MaxCalls = %d\n  MaxTs = %d\n  NClear = %d\n" \
-        "  Variant = \"%s\"\n  Atomic = %s\n" % (",".join(map(str, foreign)), maxcalls, maxts, nclear, variant,
-                                                "TRUE" if atomic else "FALSE")
+        "  Variant = \"%s\"\n  Atomic = %s\n  Shapes = {%s}\n" % (
+            ",".join(map(str, foreign)), maxcalls, maxts, nclear, variant, "TRUE" if atomic else "FALSE",
+            ",".join(map(str, shapes)))
     if check:
         for i in INVS:
             s += "INVARIANT %s\n" % i
@@ -344,11 +345,14 @@ def run(ctx):
     dfut = [pool.submit(core.tlc, "ThreadState", cfg_text=text, workers=(1 if kind == "bad" else 3 if quick else 6),
                         coverage=(kind == "cov"), timeout=900 if quick else 3000,
                         env=JLIGHT if (quick or kind == "bad") else JHEAVY) for name, text, kind in djobs]
-    gconfs = [([1, 2], 2), ([1, 2, 3], 1)] if quick else [([1, 2], 2), ([1, 2, 3], 2)]
+    # quick: ONE TLC run dumps the graphs of two instances (2 threads x 2 calls: persistence of
+    # thread-locals; 3 threads x 1 call: several zombies at once) through the Shapes constant
+    gconfs = [([1, 2, 3], 2, (22, 31))] if quick else [([1, 2], 2, ()), ([1, 2, 3], 2, ())]
     gfut = []
-    for foreign, mc in gconfs:
+    for foreign, mc, shapes in gconfs:
         dump = os.path.join(ctx.tmp, "atomic_%d_%d" % (len(foreign), mc))
-        gfut.append((dump, pool.submit(core.tlc, "ThreadState", cfg_text=cfg(foreign, mc, 1, 0, atomic=True, check=False),
+        gfut.append((dump, pool.submit(core.tlc, "ThreadState",
+                                       cfg_text=cfg(foreign, mc, 1, 0, atomic=True, check=False, shapes=shapes),
                                        dump=dump, workers=2, timeout=1500, env=JLIGHT)))
     libdir = TF.build(ctx.tmp)
     cpool = concurrent.futures.ThreadPoolExecutor(4 if quick else 8)
@@ -358,18 +362,29 @@ def run(ctx):
     rres = execute(ctx, libdir, rbehs, 4 if quick else 10, cpool, "rand", True)
     # ---- (a) behaviours of the atomic instance
     lres, exhaustive, cover = [], True, []
-    for (foreign, mc), (dump, fu) in zip(gconfs, gfut):
+    for (foreign, mc, shapes), (dump, fu) in zip(gconfs, gfut):
         r = fu.result()
         ctx.add_tlc("dump(atomic,%dthr,%dcalls)" % (len(foreign), mc), r, count_states=False)
         g = tlaval.load_dot(dump + ".dot")
         if len(g.states) != r.distinct:
             raise core.MachineryError("dumped graph has %d states, TLC reported %d" % (len(g.states), r.distinct))
         mg = macro_graph(g)
-        full = (len(foreign), mc) == (2, 2) or not quick
-        behs, done, total = cover_walks(mg, g.init[0], rng, 40, 60, full)
-        cover.append({"graph": "atomic %d threads x %d calls" % (len(foreign), mc), "stable_states": len(mg),
-                      "operations": total, "operations_replayed": done})
-        exhaustive = exhaustive and done == total
+        behs = []
+        for init in sorted(g.init, key=lambda n: g.states[n]["shape"]):
+            shape = g.states[init]["shape"]
+            reach, todo = {init}, [init]
+            while todo:
+                for e in mg[todo.pop()]:
+                    if e[2] not in reach:
+                        reach.add(e[2])
+                        todo.append(e[2])
+            sub = {n: mg[n] for n in reach}
+            full = shape == 22 or not quick
+            b, done, total = cover_walks(sub, init, rng, 40, 60, full)
+            behs += b
+            cover.append({"graph": "atomic %d threads x %d calls" % (shape // 10, shape % 10),
+                          "stable_states": len(sub), "operations": total, "operations_replayed": done})
+            exhaustive = exhaustive and done == total
         rendered = [render(g, b, rng, "g%d_%d_%d" % (len(foreign), mc, i)) for i, b in enumerate(behs)]
         lres += execute(ctx, libdir, rendered, 50, cpool, "ls%d%d" % (len(foreign), mc), True)
     ctx.cov["graph_cover"] = cover
